@@ -10,7 +10,7 @@ import gen as G             # noqa: E402
 import gtree as T           # noqa: E402
 
 PROP = "C15"
-DEPS = ["Spec/Ebnf.v", "Proofs/Recog.v", "Gen/Grammar.v"]
+DEPS = ["Spec/Ebnf.v", "Proofs/Recog.v", "Model/Memo.v", "Proofs/RecogMemo.v", "Gen/Grammar.v"]
 
 # one or two representatives per token class that the grammar distinguishes
 ALPHABET = ["Glc", "Hex", "C", "N", "O", "P", "Ac", "A", "I", "Anhydro", "0d", "D", "ol", "a", "p", "1", "2", ",", "-", "(", ")", "[", "]",
@@ -77,6 +77,20 @@ def make_inputs(r, tier):
     for s in valid:
         for m in mutants(r, s, 4 if tier == "quick" else 8):
             items.append(("mutant", m))
+    # depth and length: nested brackets, long chains, large random trees, and mutants of them
+    deep = []
+    for k in ([5, 9, 14] if tier == "quick" else [5, 7, 9, 12, 16, 24, 40]):
+        deep.append("Man(a1-2)[" * k + "Glc" + "(a1-3)]Gal" * k)
+        deep.append("Man(a1-2)[" * k + "Glc" + "(a1-3)]Gal" * (k - 1))            # one bracket left open
+        deep.append("Man(a1-4)" * (3 * k) + "Glc")
+        deep.append("[" * k + "Man(a1-2)" + "]" * k + "Glc")
+    for _ in range(6 if tier == "quick" else 60):
+        t = T.random_tree(r, r.randint(15, 40), p_branch=0.5)
+        deep.append(T.render(t, r.choice(["full", "nopar", "short"])))
+    for s in deep:
+        items.append(("deep", s))
+        for m in mutants(r, s, 2):
+            items.append(("deep-mutant", m))
     for s in corpus(1200 if tier == "quick" else 20000, r):
         items.append(("corpus", s))
     for s in ["NHex", "OPen", "Man(a1-4)NHex", "HexNHex", "PHep", "Glc#Man", "Glc##", "Glc# Man", "Glc#", "#", "", "##", " ", "Glc ", "Glc  a", "{Man(a1-4)}Glc", "{Man(a1-4)}{Gal(b1-3)}Glc"]:
@@ -101,9 +115,8 @@ def run(tier):
     skipped_long = [0]
     for (kind, s), o in zip(items, outs):
         kinds[kind] = kinds.get(kind, 0) + 1
-        # the verified recogniser has no memo table yet: its time grows quickly with the number of residues, so
-        # long inputs are left to the thorough tier's budget (counted in the evidence)
-        if s.count("(") + s.count("[") > (9 if tier == "quick" else 12) or len(s) > 160:
+        # the memoising recogniser (Model/Memo.v) is polynomial: only extreme lengths are left out (counted)
+        if len(s) > 3000:
             skipped_long[0] += 1
             continue
         mv = drv.call("accepts", s)
@@ -135,7 +148,7 @@ def run(tier):
                     {"no_failing_input": True, "what_no_longer_checks": broken, "theorems": names_thm})
     report.assumptions = ["A-antlr: the ANTLR runtime and the generated tables (GlycanLexer.py / GlycanParser.py) are compared with the grammar file through the library's accept/reject answer only; the ALL(*) interpreter itself is foreign code",
                           "tokenisation by longest match with declaration-order priority is a definition (Spec/Ebnf.v lex), implicit literal tokens of parser rules first, as ANTLR numbers them"]
-    extra = {"rule": "all sequences of up to 2 (quick) / 3 (thorough) tokens over a reduced alphabet, random sequences of 3-9 tokens, random valid glycans in three notations and their single-edit mutants, the reference corpora under tests/data (as inputs only); non-trivial = derivable from the grammar",
+    extra = {"rule": "all sequences of up to 2 (quick) / 3 (thorough) tokens over a reduced alphabet, random sequences of 3-9 tokens, random valid glycans in three notations and their single-edit mutants, nested brackets of depth 5-40, chains of up to 120 residues, trees of 15-40 residues and their mutants (verified recogniser with memo table), the reference corpora under tests/data (as inputs only); non-trivial = derivable from the grammar",
              "by_kind": kinds, "agree_accepted": agree_acc, "agree_rejected": agree_rej, "recogniser_out_of_fuel": fuel, "skipped_too_long_for_recogniser": skipped_long[0],
              "print_assumptions": res.assumptions.get(f"Props/{PROP}.v", "").strip().splitlines()[-3:]}
     return report.finish("proof", ob, dis, names_thm, trusted=C.TRUSTED, extra=extra)
